@@ -668,7 +668,7 @@ def verify(contract: Contract, registry=None) -> FunctionReport:
     rep = FunctionReport(contract, ex)
     reg = {}
     for c in (registry if registry is not None else REGISTRY).values():
-        if c.key != contract.key:
+        if c.key != contract.key and c.key not in contract.inline:  # an explicit inline request overrides call-by-contract
             try:
                 reg[c.fn_key()] = c
             except Exception:
